@@ -4,7 +4,7 @@ CONSTANTS
   SpecRouteEscaped = FALSE
   MaxSegs = 3
   MaxPayload = 4
-  SegIds = {"docs", "swagger.json", "api", "ui", "specs", "v1", "api.json", ".", "..", "empty", "oauth2-callback", "cb", "docsx", "my specs", "my%20specs"}
+  SegIds = {"docs", "swagger.json", "api", "ui", "specs", "api.json", "..", "empty", "oauth2-callback", "docsx", "my specs", "my%20specs"}
   PayloadBytes = {97, 60, 62, 38, 34, 39, 43, 47, 92, 32}
 INVARIANTS RoutingHolds EscapingHolds
 CHECK_DEADLOCK FALSE
